@@ -8,7 +8,7 @@
    _bounded are additional kernel computations over complete finite domains. *)
 From Coq Require Import ZArith List Bool.
 Import ListNotations.
-From CF Require Import ZSum ListAux Defs Core Machines Config ConfigLink BoundsLink ParkingLink ParkingCount PyLib Translated TranslatedLink Det LatticeIndex MatrixTree PyDict ImpRep ImpLinkScript TranslatedImpCFConfig ImpLinkConfig.
+From CF Require Import ZSum ListAux Defs Core Machines Config ConfigLink BoundsLink ParkingLink ParkingCount PyLib Translated TranslatedLink Det LatticeIndex MatrixTree PyDict ImpRep ImpLinkScript TranslatedImpCFConfig ImpLinkConfig TranslatedImpCFConfigMoves ImpLinkConfigMoves.
 Open Scope Z_scope.
 
 Theorem C10_legal : forall g, wfb g = true -> forall D S, (forall v, In v S -> In v (Vg g)) ->
@@ -97,6 +97,18 @@ Theorem C10_source_get_out_degree_S : forall g gg vs q v S, wfb g = true -> rep_
   out_degree_S g v S = outdeg (Vg g) (mult g) (fun w => mem w S) v.
 Proof. intros. split; [apply get_out_degree_S_refines; assumption|reflexivity]. Qed.
 Print Assumptions C10_source_get_out_degree_S.
+
+(* the readers of a configuration, translated from /repo's CURRENT source (TranslatedImpCFConfigMoves.v): on a dictionary representing the divisor D and a set
+   representing V - {q}, get_degree_at answers D(v) exactly for v in V - {q} and raises otherwise; get_q_underlying_degree answers D(q); get_degree_sum is the
+   sum of D over V - {q} and is_non_negative says whether D >= 0 there - whatever order the set is iterated in; the latter is the model's nonneg_off *)
+Theorem C10_source_config_readers : forall g q vt dd D so, rep_vtilde (nv g) q vt -> NoDup vt -> rep_div (nv g) dd D -> (forall l, Permutation.Permutation (so l) l) ->
+  (forall v, CFConfigMoves_get_degree_at q vt dd v = if inb g v && negb (Nat.eqb v q) then PyOk (nthZ D v) else PyExn tt) /\
+  CFConfigMoves_get_q_underlying_degree dd q = (if inb g q then PyOk (nthZ D q) else PyExn tt) /\
+  CFConfigMoves_get_degree_sum vt q dd so = PyOk (zsum (nthZ D) (vtilde g q)) /\
+  CFConfigMoves_is_non_negative vt q dd so = PyOk (nonneg_off g q D).
+Proof. intros g q vt dd D so Hvt Hnd HR Hso. split; [intros v; apply config_get_degree_at_refines; assumption|]. split; [apply config_get_q_underlying_degree_refines; assumption|].
+  split; [apply config_get_degree_sum_refines; assumption|]. rewrite nonneg_off_vtilde. apply config_is_non_negative_refines; assumption. Qed.
+Print Assumptions C10_source_config_readers.
 
 (* ---- bounded identities (complete finite domains, kernel computation) ---- *)
 (* K_(n+1), n <= 4, sink 0: a configuration in the box [0..n]^n is superstable iff shifting it up by one gives a parking function *)
